@@ -244,6 +244,34 @@ def unit_charliteral(eng):
     return r
 
 
+def unit_bk_filename(eng):
+    """metacommands.encode_bk_filename (the tape name of make_wav / make_turbo_wav) over every string: the codec's bytes of exactly the text
+    given, or one invalid-character error and the empty name"""
+    def run(eng):
+        eng.I = {}
+        s = z3.String("name")
+        eng.inputs["name"] = s
+        state = {"compiler": Obj("Compiler", {"output_charset": "bk"}, name="compiler"), "insn": mk_token(eng, "Instruction", name="make_wav")}
+        eng.I.update(s=s)
+        return eng.call(eng.resolve_global(eng.load_module("metacommands"), "encode_bk_filename"), [state, s], {})
+
+    def post(eng, outcome):
+        from pyvc.engine import ENCODERS
+        kind, v = outcome
+        s = eng.I["s"]
+        enc, bad = ENCODERS["bk"]
+        errs = [e[1] for e in errors(eng)]
+        eng.prove("no-exception", kind == "return")
+        if kind != "return":
+            return
+        if errs:
+            eng.prove("refused-only-when-some-character-is-outside-the-table:one-invalid-character-error-and-an-empty-name", z3.And(bad(s), z3.BoolVal(errs == ["invalid-character"]), zbytes(v) == z3.Empty(z3.SeqSort(z3.IntSort()))))
+        else:
+            eng.prove("accepted-only-when-every-character-is-in-the-table", z3.Not(bad(s)))
+            eng.prove("the-name's-bytes-are-the-table-bytes-of-exactly-the-text-given", zbytes(v) == enc(s))
+    return verify(eng, "metacommands.encode_bk_filename[bk]", run, post, func="metacommands.encode_bk_filename")
+
+
 def unit_rac(eng, tier="quick"):
     """run-time check: error positions on random strings mixing encodable and unencodable characters"""
     import os
@@ -315,6 +343,24 @@ for cp in cps:
         want = ["ok", "%%02x" %% E[ch]] if ch in E else None
         if (want is not None and got != want) or (want is None and got[0] != "fail"):
             if len(bad) < 12: bad.append([tmpl.split()[0], "U+%%04X" %% cp, got, want or "an error"])
+    # the tape name of make_wav / make_turbo_wav: the 16-byte header field holds the table bytes, blank padded; position: last, first, middle
+    for tmpl, mk in (("A%%s", lambda b: b"A" + b), ("%%sA", lambda b: b + b"A"), ("A%%sB", lambda b: b"A" + b + b"B")):
+        if tmpl != "A%%s" and cp >= 0x3000:
+            continue
+        errs = []
+        comp = Compiler()
+        try:
+            with reports.handle_reports(lambda p, i, *l: errs.append(i) if p is not reports.warning else None):
+                comp.compile_and_link_files([parse("t.mac", 'make_wav "x.wav", "' + (tmpl %% ch) + '"\nnop\n')])
+            got = ["ok", comp.emitted_files[0][4].hex()]
+        except reports.UnrecoverableError:
+            got = ["fail", errs[:1]]
+        except Exception as e:
+            got = ["crash", type(e).__name__]
+        n += 1
+        want = ["ok", mk(bytes([E[ch]])).ljust(16, b" ").hex()] if ch in E else None
+        if (want is not None and got != want) or (want is None and got[0] != "fail"):
+            if len(bad) < 12: bad.append(["make_wav name " + tmpl, "U+%%04X" %% cp, got, want or "an error"])
 for seq, _ in pairs:
     errs = []
     try:
@@ -346,7 +392,7 @@ result = [n, len(cps), bad]
 ''' % tier
     r = driver.native([{"kind": "py", "code": code}], driver.tree_root(), timeout=3000)[0]
     n, ncp, bad = r["result"] if r["status"] == "ok" else (0, 0, [str(r)[:400]])
-    ob = dict(label="through-.ascii-and-a-char-literal:a-character-assembles-to-its-table-byte-iff-it-is-in-the-table-else-an-error(no rewriting of the text before the codec)",
+    ob = dict(label="through-.ascii,-a-char-literal-and-a-tape-name:a-character-assembles-to-its-table-byte-iff-it-is-in-the-table-else-an-error(no rewriting of the text before the codec)",
               kind="bounded", status="proved" if n and not bad else "failed", secs=0.0, path=[], witness=None, detail=str(bad[:6]), events=[], smt2=None, backend="cpython-native",
               unit="string-path", func="types.QuotedString / CharLiteral -> bk_encoding (bounded stand-in)",
               bound=("%d code points: all below U+3000, every table character, and every code point that any Unicode normalisation form or case mapping changes" % ncp) if tier == "quick"
@@ -357,7 +403,7 @@ result = [n, len(cps), bad]
 
 
 def units(tier):
-    return [("tables", "unit_closed", {}), ("encode", "unit_encode", {}), ("decode", "unit_decode", {}), ("charliteral", "unit_charliteral", {}),
+    return [("tables", "unit_closed", {}), ("encode", "unit_encode", {}), ("decode", "unit_decode", {}), ("charliteral", "unit_charliteral", {}), ("bk_filename", "unit_bk_filename", {}),
             ("rac", "unit_rac", dict(tier=tier)), ("string-path", "unit_string_path", dict(tier=tier)), ("QuotedString", "unit_quoted_string", {})]
 
 
